@@ -209,6 +209,8 @@ def step(spec, st, port, v, nports=1):
     if k == "filter":
         f = bool if spec[1] == "none" else FUNCS[spec[1]]
         return st, ([v] if f(v.val) else [])
+    if k == "remove":         # Stream.remove(predicate): the complement of filter
+        return st, ([] if FUNCS[spec[1]](v.val) else [v])
     if k == "acc":
         _, fname, start, rs = spec
         has, s = st
